@@ -82,6 +82,10 @@ func (r *receivingConnProvider) NewConnection() (net.Conn, error) {
 	// Log a nicer message when shutting down normally
 	if r.lifetime.Err() != nil {
 		r.logger.Info("Listener cancelled due to shutdown")
+		if conn != nil {
+			// Accepted while shutting down: the connection is not handed on, so nothing else would close it
+			_ = conn.Close()
+		}
 		return nil, r.lifetime.Err()
 	}
 	if err != nil {
